@@ -204,6 +204,28 @@ def _delegates_to(prj: Project, fi: FuncInfo, facts: LengthFacts) -> Optional[st
 def observe(prj, fi: FuncInfo, kind: str, v: int, subj_is_length: bool):
     """outcome of the site for length v by abstract evaluation (external calls recorded as effects); raises Unknown"""
     from ..evalsite import default_args, deep_strs, run_site
+    if kind == "kept" and fi.qual == "codelimit.commands.check:check_file":
+        # check_file interpreted on a file of a virtual tree; lexing and measuring replaced: the measuring step yields one
+        # function of length v, and what reaches CheckResult.add is observed
+        from .. import walk_eval as W
+        from ..evalsite import measurement, new_instance
+        from ..fsmodel import PathV
+        lab = W.Lab(prj, W.ROOT, deep=True)
+        m = measurement(v)
+        lab.measured = [m]
+        cr = new_instance(prj, prj.cls("codelimit.common.CheckResult:CheckResult"))
+        lab.run(fi.qual, [PathV(W.ROOT + "/a.py"), cr])
+        if not any(c[0] == "scan_file" for c in lab.calls):
+            raise Unknown("check_file does not reach scan_file on a supported file")
+
+        def holds(x, depth=0):
+            if x is m:
+                return True
+            if isinstance(x, (list, tuple)) and depth < 4:
+                return any(holds(y, depth + 1) for y in x)
+            return False
+        kept = any(holds(a) for c in lab.calls if c[0] == "add" for a in list(c[1]) + list(c[2].values())) or holds(list(cr.fields.values()))
+        return ("kept",) if kept else ("dropped",)
     args, self_obj = default_args(prj, fi, v)
     before = dict(self_obj.fields) if self_obj is not None else {}
     run = run_site(prj, fi, args, self_obj=self_obj)
@@ -238,7 +260,8 @@ def check_site(ctx, prj, fi: FuncInfo, facts: LengthFacts, spec: dict, consts=No
     subj_is_length = spec["label"] == "cells" and spec["expect"](0)[0][2] == SUBJ
 
     def lab(tree, v):
-        if consts is None and spec["label"] in ("cells", "colour", "retsym", "counters"):
+        if consts is None and (spec["label"] in ("cells", "colour", "retsym", "counters", "sym") or
+                               spec["label"] == "kept" and fi.qual == "codelimit.commands.check:check_file"):
             try:
                 r = observe(prj, fi, spec["label"], v, subj_is_length)
                 evaluated["n"] += 1
@@ -250,6 +273,8 @@ def check_site(ctx, prj, fi: FuncInfo, facts: LengthFacts, spec: dict, consts=No
         return lab0(tree, v)
     lits = sorted(set(literals_compared(fi, pred, consts)) | reachable_int_literals(fi, pred) | closure_int_literals(prj, fi))
     key = fi.qual.split(":", 1)[1] + (f"<-{inst}" if inst else "")
+    if not lits and consts is None and spec["label"] == "kept" and fi.qual == "codelimit.commands.check:check_file":
+        lits = [15, 30, 60]      # the decision is evaluated (observe): probe around the specification's boundaries
     if not lits:
         d = _delegates_to(prj, fi, facts)
         if d:
@@ -286,14 +311,8 @@ def check_site(ctx, prj, fi: FuncInfo, facts: LengthFacts, spec: dict, consts=No
         ctx.sample({"site": key, "partition": desc, "literals": lits})
 
 
-def rule_R1(ctx, prj: Project, facts: LengthFacts):
-    ctx.rule("R1", "every comparison of a function length with an integer literal partitions the lengths as a "
-                   "coarsening of {<=15 | 16..30 | 31..60 | >60} and maps each region to the outcome the "
-                   "specification gives for its category (site table of DESIGN 4/C02-R1)", floor=10)
-    for q, spec in SITES.items():
-        check_site(ctx, prj, prj.func(q), facts, spec)
-    # cut-parameter sites: one instance per caller, the literal flows in through the argument
-    for q, spec in CUT_SITES.items():
+def _cut_site(ctx, prj, facts, q, spec, only_other_callers: bool):
+    if True:
         fi = prj.func(q)
         cuts = facts.cut_params.get(fi.qual, set())
         if len(cuts) != 1:
@@ -334,19 +353,72 @@ def rule_R1(ctx, prj: Project, facts: LengthFacts):
                         todo += list(prj.callgraph.callers_of(q0))
                 seen_callers |= eff
                 if eff & spec["callers"]:
+                    if only_other_callers:
+                        continue
                     check_site(ctx, prj, fi, facts, spec, consts={cut: val}, inst=cfi.local)
                 else:
                     # other callers: must at least be a coarsening (e.g. threshold 0 = everything)
                     generic_site(ctx, prj, fi, facts, consts={cut: val}, inst=cfi.local)
         missing = spec["callers"] - seen_callers
-        if missing:
+        if missing and not only_other_callers:
             raise AnalysisError(f"C02-R1: findings renderers {sorted(missing)} no longer obtain their list from {fi.local}")
+
+
+def rule_R1(ctx, prj: Project, facts: LengthFacts):
+    ctx.rule("R1", "every comparison of a function length with an integer literal partitions the lengths as a "
+                   "coarsening of {<=15 | 16..30 | 31..60 | >60} and maps each region to the outcome the "
+                   "specification gives for its category (site table of DESIGN 4/C02-R1)", floor=10)
+    for q, spec in SITES.items():
+        check_site(ctx, prj, prj.func(q), facts, spec)
+    # cut-parameter sites: one instance per caller, the literal flows in through the argument
+    listed = rule_R6_findings(ctx, prj)
+    for q, spec in CUT_SITES.items():
+        if listed:
+            ctx.ok("R1", prj.func(q).site(), f"{prj.func(q).local}: the cut of the findings lists is decided by evaluation of the renderers (R6)")
+            try:
+                _cut_site(ctx, prj, facts, q, spec, only_other_callers=True)
+            except AnalysisError as e:
+                ctx.info(f"R1: other callers of {prj.func(q).local} not classified structurally ({e}); the findings renderers are decided by R6")
+            continue
+        _cut_site(ctx, prj, facts, q, spec, only_other_callers=False)
     # every other place that compares a length with a literal
     known = set(SITES) | set(CUT_SITES)
     for fi in facts.functions_with_length_comparisons():
         if fi.qual in known:
             continue
         generic_site(ctx, prj, fi, facts)
+
+
+_SHOWN: dict = {}
+
+
+def rule_R6_findings(ctx, prj: Project) -> bool:
+    """the findings lists evaluated end to end; True when all four renderings were decided"""
+    from ..render_eval import FINDING_LENGTHS, findings_listed
+    ctx.rule("R6", "findings lists, evaluated: print_findings of the text and of the markdown renderer (with and without "
+                   "repository, full=True), interpreted on a report built through the repo's constructors with one function of "
+                   f"every length in {list(FINDING_LENGTHS)}, lists exactly the functions longer than 30 lines", floor=0)
+    want = {v for v in FINDING_LENGTHS if v > 30}
+    decided = 0
+    for q in ("codelimit.common.report.format_text:print_findings", "codelimit.common.report.format_markdown:print_findings"):
+        fi = prj.func(q)
+        for repo in (False, True):
+            try:
+                shown = findings_listed(prj, q, repo)
+            except (Unknown, PyRaise) as e:
+                ctx.info(f"R6: {fi.disp} not evaluable ({type(e).__name__}: {e}); the structural cut-site rule decides")
+                continue
+            decided += 1
+            _SHOWN.setdefault(id(prj), []).append((fi, repo, shown))
+            what = f"{fi.module.name.split('.')[-1]}.print_findings({'with' if repo else 'without'} repository)"
+            if set(shown) != want:
+                extra, missing = sorted(set(shown) - want), sorted(want - set(shown))
+                ctx.viol("R6", f"{fi.module.name.split('.')[-1]}.print_findings/listed", fi.site(),
+                         f"{what} lists the functions of length {shown}; required exactly those longer than 30: {sorted(want, reverse=True)}"
+                         + (f"; listed although <= 30: {extra}" if extra else "") + (f"; not listed although > 30: {missing}" if missing else ""))
+            else:
+                ctx.ok("R6", fi.site(), f"{what}: lists exactly the lengths {sorted(shown)}")
+    return decided == 4
 
 
 def _features(tree) -> tuple:
@@ -583,12 +655,8 @@ def _report_syntactic(ctx, prj, rep):
         ctx.ok("R3", rep.site(), "CheckResult.report: count shown exactly when hard_to_maintain + unmaintainable > 0 (4 rows)")
 
 
-def rule_R3(ctx, prj: Project):
-    ctx.rule("R3", "check lists a file's functions longest first; the summary count is hard_to_maintain + "
-                   "unmaintainable and is shown exactly when that sum is positive; the findings list is sorted "
-                   "by length descending", floor=4)
+def _check_file_order_syntactic(ctx, prj, fi):
     # (a) list handed to CheckResult.add
-    fi = prj.func("codelimit.commands.check:check_file")
     found = False
     for call in fi.calls():
         if isinstance(call.func, ast.Attribute) and call.func.attr == "add" and "check_result" in unparse(call.func.value):
@@ -608,6 +676,38 @@ def rule_R3(ctx, prj: Project):
                          f"the list passed to CheckResult.add is not sorted by length descending: {unparse(arg)[:120]}")
     if not found:
         raise AnalysisError("C02-R3: check_file no longer passes its findings to check_result.add")
+
+
+def rule_R3(ctx, prj: Project):
+    ctx.rule("R3", "check lists a file's functions longest first; the summary count is hard_to_maintain + "
+                   "unmaintainable and is shown exactly when that sum is positive; the findings list is sorted "
+                   "by length descending", floor=4)
+    # (a) list handed to CheckResult.add: evaluated (check_file interpreted, measuring replaced by functions of lengths
+    #     40, 70, 35, 61 in that order); the syntactic form decides when that is not possible
+    fi = prj.func("codelimit.commands.check:check_file")
+    try:
+        from .. import walk_eval as W
+        from ..evalsite import measurement, new_instance
+        from ..fsmodel import PathV
+        lab = W.Lab(prj, W.ROOT, deep=True)
+        lab.measured = [measurement(v, f"f{v}") for v in (40, 70, 35, 61)]
+        cr = new_instance(prj, prj.cls("codelimit.common.CheckResult:CheckResult"))
+        lab.run(fi.qual, [PathV(W.ROOT + "/a.py"), cr])
+        adds = [c for c in lab.calls if c[0] == "add"]
+        if len(adds) != 1:
+            raise Unknown(f"CheckResult.add is called {len(adds)} times")
+        lists = [a for a in list(adds[0][1]) + list(adds[0][2].values()) if isinstance(a, (list, tuple))]
+        if len(lists) != 1:
+            raise Unknown("CheckResult.add is not handed one list")
+        got = [m.fields.get("value") for m in lists[0]]
+        if got == [70, 61, 40, 35]:
+            ctx.ok("R3", fi.site(), f"check_file: the functions handed to CheckResult.add are ordered {got} (longest first)")
+        else:
+            ctx.viol("R3", "check_file/order", fi.site(), f"for functions measured as 40, 70, 35, 61 lines check_file hands {got} to "
+                                                            f"CheckResult.add; required the same functions longest first: [70, 61, 40, 35]")
+    except (Unknown, PyRaise) as e:
+        ctx.info(f"check_file not evaluable for the order of its list ({e}); the syntactic form decides")
+        _check_file_order_syntactic(ctx, prj, fi)
     # (b) summary number and its guard in CheckResult.report: evaluated with the console calls recorded as effects
     rep = prj.func("codelimit.common.CheckResult:CheckResult.report")
     try:
@@ -615,8 +715,18 @@ def rule_R3(ctx, prj: Project):
     except (Unknown, PyRaise) as e:
         ctx.info(f"CheckResult.report not evaluable ({e}); falling back to the syntactic form")
         _report_syntactic(ctx, prj, rep)
-    # (c) findings list order
+    # (c) findings list order: from the evaluated renderers (R6) when all four were decided, else from the form of the method
     fr = prj.func("codelimit.common.report.Report:Report.all_report_units_sorted_by_length_asc")
+    shown = _SHOWN.get(id(prj), [])
+    if len(shown) == 4:
+        for fi2, repo, lens in shown:
+            what = f"{fi2.module.name.split('.')[-1]}.print_findings({'with' if repo else 'without'} repository)"
+            if lens == sorted(lens, reverse=True):
+                ctx.ok("R3", fi2.site(), f"{what}: findings appear longest first ({lens})")
+            else:
+                ctx.viol("R3", "Report.all_report_units_sorted_by_length_asc/order", fr.site(),
+                         f"findings are not listed longest first: {what} shows the lengths in the order {lens}")
+        return
     rets = [n for n in fr.walk() if isinstance(n, ast.Return) and n.value is not None]
     orders = {list_value_order(prj, fr, r.value, r, attr="measurement.value") for r in rets}
     order = orders.pop() if len(orders) == 1 else None
@@ -663,6 +773,8 @@ def run(ctx, prj: Project):
     rule_R2(ctx, prj)
     rule_R3(ctx, prj)
     rule_R4(ctx, prj)
+    from .c07 import rule_R8_isolation
+    rule_R8_isolation(ctx, prj, rid="R5")
     ctx.exhaustive = True
 
 
